@@ -2,7 +2,10 @@
 // The real mechanisms are driven through smtp.Client.Auth (and, for the option plumbing, through
 // mail.Client.DialWithContext) against reference SASL servers (harness/saslx) whose honest behaviour is disturbed
 // at one step: 535, malformed challenge, unexpected extra challenge, disconnect, a garbage line instead of a reply,
-// silence until the read times out (each right after EACH client line of the exchange); also wrong credentials.  Sessions
+// silence until the read times out (each right after EACH client line of the exchange); also wrong credentials.
+// Kind cc: another public method of the same smtp.Client (Close, Quit, Reset, Noop) is called between two SASL steps, at
+// every step of every mechanism (deterministically, from inside the mechanism's Next, when the Client's mutex is free -
+// the interleaving a second goroutine could produce); nothing the mechanism handed out may reach any logger.  Sessions
 // come in three hello modes: explicit Client.Hello before Auth, Auth as the first command on the connection (the
 // implicit EHLO inside Auth is then logged with the logger attached), and the same with the HELO fallback.
 //
@@ -244,7 +247,7 @@ func (s *scripted) onLine(line string) (reply, bool) {
 	}
 	var r reply
 	switch {
-	case line == "NOOP":
+	case line == "NOOP" || line == "RSET":
 		return reply{250, "ok"}, true // outside the script
 	case line == "*":
 		r = reply{501, "5.0.0 aborted"}
@@ -572,8 +575,128 @@ func runCase(r *hx.Run, c hx.Case) {
 		}
 	case "mc":
 		runMailClient(r, c)
+	case "cc":
+		runCC(r, c)
 	default:
 		panic("unknown case kind " + c.Kind)
+	}
+}
+
+// hookAuth wraps a mechanism: before its at-th call of Next it runs call() - another public method of the same
+// smtp.Client (Close, Quit, Reset, Noop), as a second goroutine (an application timeout, a keep-alive) could between two
+// SASL steps, when the Client's mutex is free.  It records everything the mechanism hands to the Auth loop.
+type hookAuth struct {
+	inner smtp.Auth
+	at, n int
+	call  func()
+	resps [][]byte
+}
+
+func (h *hookAuth) Start(si *smtp.ServerInfo) (string, []byte, error) {
+	m, resp, err := h.inner.Start(si)
+	if resp != nil {
+		h.resps = append(h.resps, resp)
+	}
+	return m, resp, err
+}
+
+func (h *hookAuth) Next(fromServer []byte, more bool) ([]byte, error) {
+	if h.n == h.at && h.call != nil {
+		h.call()
+	}
+	h.n++
+	resp, err := h.inner.Next(fromServer, more)
+	if len(resp) > 0 {
+		h.resps = append(h.resps, resp)
+	}
+	return resp, err
+}
+
+// case: cc <mech> <method close|quit|reset|noop> <at> <hello e|i> <user> <secret>; oracle only, every logger
+func runCC(r *hx.Run, c hx.Case) {
+	var sc scenario
+	sc.mech, sc.mut = c.Args[0], "none"
+	method := c.Args[1]
+	at, _ := strconv.Atoi(c.Args[2])
+	sc.hello = c.Args[3]
+	sc.user, sc.secret = string(hx.UnHex(c.Args[4])), string(hx.UnHex(c.Args[5]))
+	if sc.mech == "sha256plus" {
+		sc.tlsState = saslx.TLSState(tls.VersionTLS13)
+	}
+	r.AddOracleOnly(c, true)
+	r.Dist["concurrent:"+method]++
+	one := func(lg log.Logger) (*hookAuth, []string) {
+		st := &scripted{ref: newRef(&sc), sc: &sc}
+		sess, err := saslx.NewSessionHello("localhost", []string{capsLine}, func(line string) string {
+			rp, ok := st.onLine(line)
+			if !ok {
+				return ""
+			}
+			return saslx.FormatReply(rp.code, rp.text)
+		}, sc.hello)
+		if err != nil {
+			return nil, nil
+		}
+		cl := sess.Client
+		cl.SetLogger(lg)
+		cl.SetDebugLog(true)
+		h := &hookAuth{inner: mkAuth(&sc), at: at}
+		h.call = func() {
+			switch method {
+			case "close":
+				_ = cl.Close()
+			case "quit":
+				_ = cl.Quit()
+			case "reset":
+				_ = cl.Reset()
+			default:
+				_ = cl.Noop()
+			}
+		}
+		_ = cl.Auth(h)
+		if sess.Conn.CloseCount() == 0 {
+			_ = cl.Noop()
+			_ = sess.Conn.Close()
+		}
+		return h, sess.Lines
+	}
+	nd := func(h *hookAuth, lines []string) map[string][]byte {
+		m := needles(&sc, lines)
+		for i, rp := range h.resps {
+			if len(rp) >= 6 {
+				m[fmt.Sprintf("sasl-response-%d", i)] = rp
+				m[fmt.Sprintf("sasl-response-%d-base64", i)] = []byte(base64.StdEncoding.EncodeToString(rp))
+			}
+		}
+		return m
+	}
+	where := "-after-concurrent-" + method
+	cap := &capLogger{}
+	if h, lines := one(cap); h != nil {
+		n := nd(h, lines)
+		for _, rec := range cap.recs {
+			scan(r, c.ID, "capture"+where, rec, n)
+		}
+		for _, rec := range cap.Late() {
+			scan(r, c.ID, "retaining-logger"+where, rec, n)
+		}
+	}
+	bl := &batchLogger{n: 3}
+	if h, lines := one(bl); h != nil {
+		bl.Flush()
+		n := nd(h, lines)
+		for _, rec := range bl.out {
+			scan(r, c.ID, "batching-logger"+where, rec, n)
+		}
+	}
+	var sb, jb bytes.Buffer
+	if h, lines := one(log.New(&sb, log.LevelDebug)); h != nil {
+		scan(r, c.ID, "stdlog"+where, sb.Bytes(), nd(h, lines))
+	}
+	if h, lines := one(log.NewJSON(&jb, log.LevelDebug)); h != nil {
+		n := nd(h, lines)
+		scan(r, c.ID, "jsonlog"+where, jb.Bytes(), n)
+		scan(r, c.ID, "jsonlog"+where, jsonMsgs(jb.Bytes()), n)
 	}
 }
 
@@ -682,6 +805,23 @@ func Run(r *hx.Run, replay []hx.Case) {
 	rounds := 8
 	if r.Tier == "thorough" {
 		rounds = 80
+	}
+	// another public method of the same smtp.Client called between two SASL steps (every step of every mechanism)
+	ccRounds := 1
+	if r.Tier == "thorough" {
+		ccRounds = 10
+	}
+	for round := 0; round < ccRounds && !r.Expired(); round++ {
+		for _, m := range mechs {
+			for at := 0; at < steps[m]; at++ {
+				for _, method := range []string{"close", "quit", "reset", "noop"} {
+					for _, h := range []string{"e", "i"} {
+						runCase(r, hx.Case{ID: r.NewID(), Kind: "cc", Args: []string{m, method, strconv.Itoa(at), h,
+							hx.Hex([]byte("user")), hx.Hex([]byte(secretOf(r, at+round)))}})
+					}
+				}
+			}
+		}
 	}
 	users := []string{"user", "user@example.com", "u,s=er", "Jürgen"}
 	i := 0
